@@ -363,17 +363,20 @@ fn run_c07(deg: usize, p: &[f64], with_knot: bool) -> Option<String> {
 }
 
 fn gen_c07(rng: &mut Rng, n: usize, out: &mut Vec<Case>) {
-    let knots = [(0.0, 1.0), (0.0, 0.0), (2.0, 5.0), (-1.5, 0.25), (3.0, 1e-17), (1.0, -1e-18), (0.5, 1e-300), (1e-9, 3.0)];
+    let knots = [(0.0, 1.0), (0.0, 0.0), (2.0, 5.0), (-1.5, 0.25), (3.0, 1e-17), (1.0, -1e-18), (0.5, 1e-300), (1e-9, 3.0), (1e-17, 1.0), (-1e-18, 0.0), (-2.0, 3.0), (-0.5, -4.0)];
     for deg in 0..=7usize {
         for pos in 0..=deg {
             let mut c = vec![0.0; deg + 1]; c[pos] = 7.0; out.push(case(&format!("c07_indef{}", deg), &c));
             let mut c: Vec<f64> = (0..=deg).map(|i| 5.0 + i as f64).collect(); c[pos] = 0.7; out.push(case(&format!("c07_indef{}", deg), &c));
+            let mut c = vec![1.0; deg + 1]; c[pos] = 3e-308; out.push(case(&format!("c07_indef{}", deg), &c));
+            let mut c = vec![1.0; deg + 1]; c[pos] = 5e-324 * 7.0; out.push(case(&format!("c07_indef{}", deg), &c));
             for &(x, y) in knots.iter() {
                 let mut c = vec![0.0; deg + 1]; c[pos] = if pos % 2 == 0 { 7.0 } else { 0.0 };
                 c.push(x); c.push(y);
                 out.push(case(&format!("c07_integral{}", deg), &c));
                 let mut c: Vec<f64> = (0..=deg).map(|i| 1.0 + i as f64).collect(); c.push(x); c.push(y);
                 out.push(case(&format!("c07_integral{}", deg), &c));
+                if pos == 0 { let mut c = vec![0.0; deg + 1]; c[0] = 3e20; c.push(x); c.push(y); out.push(case(&format!("c07_integral{}", deg), &c)); }
             }
         }
     }
@@ -466,13 +469,15 @@ fn run_c09(deg: usize, p: &[f64]) -> Option<String> {
     None
 }
 fn gen_c09(rng: &mut Rng, n: usize, out: &mut Vec<Case>) {
-    let pts = [(1.0, 0.0, 1.0, 3.0), (2.5, -1.0, 0.5, 2.0), (4.0, -3.0, 1.0, 4.0), (0.5, 2.0, 0.25, 0.75), (1.0, 2.0, 1e-17, 2e-17), (3.0, 1.0, 1e-3, 1e3)];
+    let pts = [(1.0, 1.0, 1.0, 3.0), (1.0, -2.0, 0.5, 1.0), (1.0, 0.0, 1.0, 3.0), (2.5, -1.0, 0.5, 2.0), (4.0, -3.0, 1.0, 4.0), (0.5, 2.0, 0.25, 0.75), (1.0, 2.0, 1e-17, 2e-17), (3.0, 1.0, 1e-3, 1e3)];
     for deg in 0..=8usize {
         for pos in 0..=deg {
             for &(kx, ky, a, b) in pts.iter() {
                 let mut c = vec![0.0; deg + 1]; c[pos] = 1.0; c.extend_from_slice(&[kx, ky, a, b]);
                 out.push(case(&format!("c09_log{}", deg), &c));
                 let mut c: Vec<f64> = (0..=deg).map(|i| 1.0 + 0.5 * i as f64).collect(); c.extend_from_slice(&[kx, ky, a, b]);
+                out.push(case(&format!("c09_log{}", deg), &c));
+                let mut c: Vec<f64> = (0..=deg).map(|i| (1.0 + 0.5 * i as f64) * 1e-19).collect(); c.extend_from_slice(&[kx, ky * 1e-19, a, b]);
                 out.push(case(&format!("c09_log{}", deg), &c));
             }
         }
